@@ -403,7 +403,7 @@ func (t *State) PlayForMiner(blockid []byte) error {
 	var err error
 	defer func() {
 		if err != nil {
-			t.clearBalanceCache()
+			t.resetMemStateOnFail()
 		}
 	}()
 	for _, tx := range block.Transactions {
@@ -426,9 +426,9 @@ func (t *State) PlayForMiner(blockid []byte) error {
 	// 更新不可逆区块高度
 	curIrreversibleBlockHeight := t.meta.GetIrreversibleBlockHeight()
 	curIrreversibleSlideWindow := t.meta.GetIrreversibleSlideWindow()
-	updateErr := t.meta.UpdateNextIrreversibleBlockHeight(block.Height, curIrreversibleBlockHeight, curIrreversibleSlideWindow, batch)
-	if updateErr != nil {
-		return updateErr
+	err = t.meta.UpdateNextIrreversibleBlockHeight(block.Height, curIrreversibleBlockHeight, curIrreversibleSlideWindow, batch)
+	if err != nil {
+		return err
 	}
 	//更新latestBlockid
 	err = t.updateLatestBlockid(block.Blockid, batch, "failed to save block")
@@ -458,6 +458,12 @@ func (t *State) PlayAndRepost(blockid []byte, needRepost bool, isRootTx bool) er
 	}
 	t.utxo.Mutex.Lock()
 	defer t.utxo.Mutex.Unlock()
+	playSucc := false
+	defer func() {
+		if !playSucc {
+			t.resetMemStateOnFail()
+		}
+	}()
 	// 下面开始处理unconfirmed的交易
 	unconfirmToConfirm, undoDone, err := t.processUnconfirmTxs(block, batch, needRepost)
 	if err != nil {
@@ -519,6 +525,7 @@ func (t *State) PlayAndRepost(blockid []byte, needRepost bool, isRootTx bool) er
 
 	t.log.Debug("paly and repost succ", "blockId", utils.F(block.Blockid))
 
+	playSucc = true
 	return nil
 }
 
@@ -666,6 +673,7 @@ func (t *State) Walk(blockid []byte, ledgerPrune bool) error {
 	// utxoVM回滚需要回滚区块
 	err = t.procUndoBlkForWalk(undoBlocks, undoDone, ledgerPrune)
 	if err != nil {
+		t.resetMemStateOnFail()
 		t.log.Warn("walk fail,because undo block fail", "err", err)
 		return fmt.Errorf("walk undo block fail")
 	}
@@ -674,6 +682,7 @@ func (t *State) Walk(blockid []byte, ledgerPrune bool) error {
 	// utxoVM执行需要执行区块
 	err = t.procTodoBlkForWalk(todoBlocks)
 	if err != nil {
+		t.resetMemStateOnFail()
 		t.log.Warn("walk fail,because todo block fail", "err", err)
 		return fmt.Errorf("walk todo block fail")
 	}
@@ -835,6 +844,16 @@ func (t *State) ClearCache() {
 	t.clearBalanceCache()
 	t.xmodel.CleanCache()
 	t.log.Info("clear utxo cache")
+}
+
+// resetMemStateOnFail 区块执行(或回滚)失败时batch没有落盘, 但执行过程中已经直接改动了内存状态:
+// utxo总量, meta的临时值, utxo/余额/xmodel cache. 全部恢复成和磁盘一致, 调用方需要持有utxo.Mutex写锁
+func (t *State) resetMemStateOnFail() {
+	t.ClearCache()
+	t.utxo.ReloadUtxoTotal()
+	t.meta.MutexMeta.Lock()
+	t.meta.MetaTmp = proto.Clone(t.meta.Meta).(*pb.UtxoMeta)
+	t.meta.MutexMeta.Unlock()
 }
 
 func (t *State) QueryBlock(blockid []byte) (kledger.BlockHandle, error) {
